@@ -38,7 +38,8 @@ Proof. reflexivity. Qed.
 Definition ex_offset_stmt (c : pcfg) : Prop :=
   exists x r m, part_lookup (0, 2) (s_parts (ex_set c)) = Some x /\ build_part c x = Some r /\
     nth_error (ps_msgs x) 2 = Some m /\ pm_id m = 3 /\
-    nth_error (assign_offsets 4294967337 (ps_msgs x)) 2 = Some (m, 4294967339) /\
+    nth_error (handle_success c 4294967337 1700000000123000000 (ps_msgs x)) 2 =
+      Some (m, 4294967339, if v0_10 c then 1700000000123000000 else T0 - 1500000) /\
     log_lookup 4294967339 (append_records 4294967337 (decoded_view r)) =
       Some (mkEntry (Some [107]) (Some []) [] (if v0_10 c then Some 1600000000003000000 else None)).
 Ltac ex_offset := unfold ex_offset_stmt; eexists; eexists; eexists; conj.
